@@ -58,7 +58,7 @@ class C03(Prop):
     anchors = ["aioswitcher.api:SwitcherApi._login", "aioswitcher.api:SwitcherType2Api.control_breeze_device",
                "aioswitcher.api:SwitcherType2Api._control_breeze_swing_device", "aioswitcher.api:SwitcherType2Api._get_breeze_state",
                "aioswitcher.device.tools:current_timestamp_to_hexadecimal"]
-    min_evaluations = {"quick": 2_000, "thorough": 40_000}
+    min_evaluations = {"quick": 10_000, "thorough": 150_000}
     budget_s = {"quick": 60, "thorough": 900}
 
     def selftest(self):
@@ -87,8 +87,8 @@ class C03(Prop):
                     yield {"mode": "single", "exhaustive": True, "seed": f"{seed}/x{i}",
                            "clients": [{"type": t, "steps": [step_of(k) for k in h]}]}
                 i += 1
-        n_rand = {"quick": 320, "thorough": 12_000}[tier]
-        n_dual = {"quick": 480, "thorough": 24_000}[tier]
+        n_rand = {"quick": 1_600, "thorough": 20_000}[tier]
+        n_dual = {"quick": 2_400, "thorough": 40_000}[tier]
         for j in range(n_rand):
             if i % nshards == shard:
                 yield {"mode": "single", "seed": f"{seed}/r{j}", "random": True}
